@@ -341,7 +341,7 @@ def defects(secs):
             for v in ('yaml', '5', 'JSON'):
                 D.append(('format=%s' % v, i, _mk_set(i, 'format', v)))
             for how in ('truncated', 'trailing-comma', 'single-quotes',
-                        'empty-line'):
+                        'empty-line', 'invalid-utf8'):
                 D.append(('bad-json:%s' % how, i, _mk_badjson(i, how)))
     return D
 
@@ -403,12 +403,23 @@ def _mk_nonewline(i, how):
 def _mk_badjson(i, how):
     def f(secs):
         s = secs[i]
+        eff = s.eff or 'utf-8'      # (JSON without any encoding is UTF-8)
         try:
-            text = s.body.decode(s.eff)
+            text = s.body.decode(eff)
         except Exception:
             return False
         nlt = {'unix': '\n', 'dos': '\r\n'}[s.kind or 'unix']
         core = text[:-len(nlt)]
+        if how == 'invalid-utf8':
+            # a byte that is not valid in the section's encoding, inside a
+            # JSON string (a Latin-1 name in a file that says, or implies,
+            # UTF-8)
+            if eff.lower().replace('_', '-') not in ('utf-8', 'ascii') or \
+                    b'"' not in s.body:
+                return False
+            j = s.body.index(b'"') + 1
+            s.body = s.body[:j] + b'caf\xe9' + s.body[j:]
+            return True
         if how == 'truncated':
             core = core.rstrip()[:-1].rstrip()
         elif how == 'trailing-comma':
@@ -421,7 +432,7 @@ def _mk_badjson(i, how):
             core = ''
         if not core and how != 'empty-line':
             return False
-        s.body = (core + nlt).encode(s.eff)
+        s.body = (core + nlt).encode(eff)
         return True
     return f
 
